@@ -37,6 +37,14 @@ impl Out {
     /// Keep the smallest violation of each (flavour, class).
     pub fn report(&mut self, mut v: Violation) {
         self.stats.inc("violating_cases");
+        if crate::gsweep::churn() != 0 {
+            if let Some(o) = v.case.as_object_mut() {
+                o.insert("churn".into(), serde_json::json!(crate::gsweep::churn()));
+            }
+            if !v.what.contains("[graph reached") {
+                v.what = format!("[graph reached {}then built as shown] {}", crate::gsweep::churn_text(crate::gsweep::churn()), v.what);
+            }
+        }
         if crate::flavor::collide() != 0 {
             // the case must be replayed with the same key-hash mode
             if let Some(o) = v.case.as_object_mut() {
